@@ -255,6 +255,106 @@ def real_kill(args):
         shutil.rmtree(d, ignore_errors=True)
 
 
+class MonDigest(e1.Monitor):
+    """Logical content of the checkpoint after every completed write."""
+    prop = PROP
+
+    def attach(self, world):
+        self.completed = []
+
+    def on_event(self, world, tag, info):
+        if tag == 'post_write':
+            try:
+                d, _ = digest.h5_file_logical(world.filepath)
+            except Exception as e:
+                d = 'EXC:' + type(e).__name__
+            self.completed.append(d)
+
+
+def exception_kill(args):
+    """Process death delivered as an exception inside a checkpoint write
+    (SIGINT / a SIGTERM handler that raises): the stack unwinds, context
+    managers run.  The checkpoint must still be the last completed state and
+    a new sampler must resume into a valid computation."""
+    tier, seed, i = args
+    import numpy as np
+    import warnings
+    warnings.simplefilter('ignore')
+    np.seterr(all='ignore')
+    from engines import e1_monitors as mon
+    rng = R.run_rng(PROP, tier, seed, i, 'exc')
+    cfg = draw_cfg(rng)
+    out = dict(i=i, cfg=cfg)
+    twin = e1.run_twin(cfg, wall=30)
+    if twin['status'] != 'ok':
+        out['status'] = 'discarded'
+        return out
+    B = max(1, twin['batches'])
+    r = rng.choice([0, 0, 1, rng.randrange(0, B), rng.randrange(0, B)])
+    ops = ([['run', r]] if r else []) + [
+        ['kill_in_write', rng.choice([1, 1, 2, 3]),
+         rng.choice([1, 2, 3, 5, 8, 13, 21, 34])]]
+    out['ops'] = ops
+    e1.install_clock()
+    scratch = tempfile.mkdtemp(prefix='verif-c06x-', dir=env.scratch_root())
+    try:
+        md = MonDigest()
+        world = e1.World(cfg, scratch, [md], tag='ckpt')
+        world.new_sampler('fresh')
+        killed = None
+        for op in ops:
+            killed = world.apply(list(op))
+        if killed != 'killed':
+            out['status'] = 'not_reached'
+            return out
+        ek = getattr(world, 'last_exc_kill', {})
+        out['where'] = dict(kind=ek.get('kind'), call=ek.get('count'),
+                            completed=len(md.completed))
+        image = None
+        if os.path.exists(world.filepath):
+            with open(world.filepath, 'rb') as f:
+                image = f.read()
+        cls = e2.classify(image)
+        o = dict(last=(md.completed[-1] if md.completed else None),
+                 next=None, n_completed=len(md.completed))
+        cls_v, why = e2.verdict_for(cls, o)
+        if cls_v is not None:
+            out.update(status='violation', cls=cls_v + '_after_exception',
+                       msg=why + ' (the process died through an exception '
+                       'raised at HDF5 call {} of a {} write, {} checkpoints '
+                       'had been completed)'.format(
+                           ek.get('count'), ek.get('kind'),
+                           len(md.completed)))
+            return out
+        if why.startswith('tolerated') and cls == 'unreadable':
+            out['status'] = 'ok_tolerated'
+            return out
+        # re-running the script must continue a valid computation
+        try:
+            world.monitors = [mon.MonC01()]
+            for m in world.monitors:
+                m.attach(world)
+            world.new_sampler('kill')
+            world.apply(['finish'])
+        except e1.Violation as v:
+            out.update(status='violation', cls='resume_invalid_after_'
+                       'exception', msg='after an exception-kill in a {} '
+                       'write the resumed run violates {}: {}'.format(
+                           ek.get('kind'), v.cls, v.msg))
+            return out
+        except Exception as e:
+            out.update(status='violation', cls='resume_failed_after_'
+                       'exception', msg='after an exception-kill at HDF5 '
+                       'call {} of a {} write re-running the script raised '
+                       '{}: {}'.format(ek.get('count'), ek.get('kind'),
+                                       type(e).__name__, e))
+            return out
+        out['status'] = 'ok'
+        return out
+    finally:
+        shutil.rmtree(scratch, ignore_errors=True)
+
+
 def main(argv=None):
     ap = argparse.ArgumentParser()
     ap.add_argument('--replay')
@@ -275,6 +375,19 @@ def main(argv=None):
             with open(args.replay) as f:
                 payload = json.load(f)
             c = payload['case']
+            if c.get('engine') == 'e1':
+                # regenerate the same case from its run index
+                r = exception_kill((tier, payload.get('seed', seed),
+                                    c['i']))
+                report.say('replay of {}: {}'.format(args.replay,
+                                                     r.get('status')))
+                if r.get('status') == 'violation':
+                    report.say('VIOLATION property={} replay={}'.format(
+                        PROP, args.replay))
+                    report.say('  class={} {}'.format(r['cls'], r['msg']))
+                    return env.EXIT_VIOLATION
+                report.say('no longer reproduces')
+                return env.EXIT_OK
             info = record_run((tier, seed, 0, root, c['cfg']))
             if info['status'] != 'ok':
                 report.say('HARNESS-ERROR: {}'.format(info.get('error')))
@@ -405,6 +518,26 @@ def run_check(args, tier, seed, root, workers, t0):
             info['i'], f['n']), dict(case=case, violation=v))
         verdict.add_violation(v, path, case)
 
+    # process death delivered as an exception inside a write
+    import nautilus  # noqa: F401
+    n_exc = dict(quick=48, thorough=600)[tier]
+    xres = orchestrator.run_parallel(
+        exception_kill, [(tier, seed, i) for i in range(n_exc)],
+        workers=workers, hard_wall=600)
+    xstat = {}
+    xwhere = {}
+    for r in xres:
+        xstat[r['status']] = xstat.get(r['status'], 0) + 1
+        if 'where' in r:
+            k = '{} write'.format(r['where']['kind'])
+            xwhere[k] = xwhere.get(k, 0) + 1
+        if r['status'] == 'violation' and r['cls'] not in reported:
+            reported.add(r['cls'])
+            case = dict(engine='e1', cfg=r['cfg'], ops=r['ops'], i=r['i'])
+            v = dict(prop=PROP, cls=r['cls'], msg=r['msg'], detail={})
+            path = report.write_replay(PROP, seed, 'x{}'.format(r['i']),
+                                       dict(case=case, violation=v))
+            verdict.add_violation(v, path, case)
     wall = time.time() - t0
     n_points = tot['points'] + tot['torn_points']
     probes = {}
@@ -412,7 +545,7 @@ def run_check(args, tier, seed, root, workers, t0):
         for k, v in (info.get('probes') or {}).items():
             probes[k] = probes.get(k, 0) + v
     coverage = dict(
-        evaluations=n_points + len(kres),
+        evaluations=n_points + len(kres) + len(xres),
         distinct_nontrivial=len(distinct),
         rule=('for each of {} recorded checkpointed runs (seeded '
               'configurations: networks 0/1, blobs, periodic; covering first '
@@ -451,9 +584,14 @@ def run_check(args, tier, seed, root, workers, t0):
         model_findings_by_class=classes,
         crash_points_by_position=inside,
         real_kills=len(kres), real_kill_outcomes=kstat,
+        exception_kills_inside_writes=xstat,
+        exception_kills_by_write_kind=xwhere,
         faults_fired=dict(kill_at_file_operation=tot['points'],
                           torn_write=tot['torn_points'],
-                          real_exit_before_operation=len(kres)),
+                          real_exit_before_operation=len(kres),
+                          exception_raised_inside_write=xstat.get('ok', 0) +
+                          xstat.get('ok_tolerated', 0) +
+                          xstat.get('violation', 0)),
         probes=probes,
         runs_per_hour=round(n_points / max(wall, 1e-9) * 3600),
         components=dict(
@@ -473,9 +611,11 @@ def run_check(args, tier, seed, root, workers, t0):
                      'out of scope of the statement',
                      'SIGKILL can tear a large write at page granularity'])
     report.say('{} {}: {} runs, {} crash points + {} torn; ok {} tolerated {} '
-               'findings {}; real kills {}; {:.0f} s'.format(
+               'findings {}; real kills {}; exception kills {} {}; '
+               '{:.0f} s'.format(
                    PROP, tier, len(good), tot['points'], tot['torn_points'],
-                   tot['ok'], tot['tolerated'], classes, kstat, wall))
+                   tot['ok'], tot['tolerated'], classes, kstat, xstat,
+                   xwhere, wall))
     if verdict.violations:
         return env.EXIT_VIOLATION
     if len(distinct) < 2:
